@@ -247,6 +247,9 @@ func checkModel(c *Case, impl, model [][]string, index string) *Finding {
 		if index == "flat" && (c.Steps[i].Cmd == "dumpindex" || strings.HasPrefix(c.Steps[i].Cmd, "iternext ")) {
 			continue // the bucket layout is not a notion of the flat reference index
 		}
+		if index != "phys" && c.Steps[i].Cmd == "dumpphys" {
+			continue // file offsets, free list and index file bytes: the physical index model only
+		}
 		if !eqLines(impl[i], model[i]) {
 			return &Finding{Kind: "model:" + index, Case: c.Name, Step: i, Cmd: clip(c.Steps[i].Cmd), Impl: clipAll(impl[i]), Model: clipAll(model[i]), Program: cmdsOf(c)}
 		}
@@ -350,7 +353,7 @@ func runCases(r *Result, cases []*Case, impls [][][]string, withModel bool) {
 		if chunk < 1 {
 			chunk = 1
 		}
-		for _, index := range []string{"flat", "chain"} {
+		for _, index := range []string{"flat", "chain", "phys"} {
 			for from := 0; from < len(cases); from += chunk {
 				to := from + chunk
 				if to > len(cases) {
@@ -398,7 +401,7 @@ func runCases(r *Result, cases []*Case, impls [][][]string, withModel bool) {
 		}
 		if withModel {
 			r.ModelCompared += len(c.Steps)
-			for _, index := range []string{"flat", "chain"} {
+			for _, index := range []string{"flat", "chain", "phys"} {
 				if f := checkModel(c, impls[i], models[index][i], index); f != nil {
 					r.Findings = append(r.Findings, shrinkModelFinding(c, f, index))
 					break
